@@ -15,6 +15,15 @@ C03 driver.  Header `@ C03 rb` (zero-value RoaringBitmap).  Operations:
                           `hi:b<cached length>/<popcount>/<len(set)>#<hash of the words>` (bitmap
                           container) — compared with the reflection dump of the real RoaringBitmap
 Enumerations are printed in full up to 24 elements, otherwise as count + hash + ends.
+
+Wave 4 (held handles; /tmp/work/w4-c03-protocol.md).  The state of a case is the bitmap + 4 Seq
+slots (a held `rb.All()` value: a closure over the object, so a slot is just "obtained") + 4 Iter
+slots (a held `rb.Iter()` value).  An empty slot answers `none`; malformed arguments or a slot
+index > 3 answer `bad-op` (checked before the slot is looked at).
+  seq k | seqrange k stop | seqtwice k j | seqnest k j | pull2 k a        (j >= 1)
+  it k | itnext k n (1 <= n <= 64) | itpairs j (j >= 1)
+Every WELL-FORMED add / rm / fill / drain line empties the four Iter slots (a `bad-op` line
+changes nothing).
 -/
 namespace Golib.C03
 open Golib.Proto
@@ -93,18 +102,93 @@ def step (r : RB) (t : List String) : Option (Option (RB × String)) :=
     some ((r.iterAll true).map fun (xs, it) => (r, summary xs ++ " again=" ++ showBool (it.next true).2))
   | _ => none
 
-def runOps : Option RB → List String → List String
+/-- The state of a case: the bitmap, the Seq slots (obtained?), the Iter slots. -/
+structure St where
+  r : RB
+  seqs : Array Bool
+  its : Array (Option It)
+
+def St.init : St := ⟨RB.empty, Array.replicate 4 false, Array.replicate 4 none⟩
+
+def slot? (s : String) : Option Nat :=
+  match s.toNat? with
+  | some k => if k < 4 then some k else none
+  | none => none
+
+/-- A natural number `≥ 1`. -/
+def pos? (s : String) : Option Nat :=
+  match s.toNat? with
+  | some n => if 1 ≤ n then some n else none
+  | none => none
+
+def showCounts (cs : List Nat) : String := ",".intercalate (cs.map toString)
+
+/-- Answer of an op on Seq slot `k`: `none` when the slot is empty. -/
+def onSeq (st : St) (k : Nat) (out : String) : Option (St × String) :=
+  some (st, if st.seqs.getD k false then out else "none")
+
+/-- One operation on the extended state: `none` = bad-op; `some none` = panic. -/
+def stepSt (st : St) (t : List String) : Option (Option (St × String)) :=
+  let r := st.r
+  match t with
+  | ["seq", k] => (slot? k).map fun k => some ({ st with seqs := st.seqs.setIfInBounds k true }, "ok")
+  | ["seqrange", k, stop] =>
+    match slot? k, stop.toNat? with
+    | some k, some stop => some (onSeq st k (summary (r.seqRange stop)))
+    | _, _ => none
+  | ["seqtwice", k, j] =>
+    match slot? k, pos? j with
+    | some k, some j =>
+      let (xs1, xs2) := r.seqTwice j
+      some (onSeq st k (summary xs1 ++ " ; " ++ summary xs2))
+    | _, _ => none
+  | ["seqnest", k, j] =>
+    match slot? k, pos? j with
+    | some k, some j =>
+      let (as, cs) := r.seqNest j
+      some (onSeq st k ("outer=" ++ summary as ++ " inner=" ++ showCounts cs))
+    | _, _ => none
+  | ["pull2", k, a] =>
+    match slot? k, a.toNat? with
+    | some k, some a =>
+      let (xs1, xs2) := r.pull2 a
+      some (onSeq st k (summary xs1 ++ " ; " ++ summary xs2))
+    | _, _ => none
+  | ["it", k] => (slot? k).map fun k => some ({ st with its := st.its.setIfInBounds k (some r.iter) }, "ok")
+  | ["itnext", k, n] =>
+    match slot? k, pos? n with
+    | some k, some n =>
+      if n ≤ 64 then
+        match st.its.getD k none with
+        | none => some (some (st, "none"))
+        | some it =>
+          some ((It.steps n it []).map fun (xs, it', more) =>
+            ({ st with its := st.its.setIfInBounds k (some it') }, showNats xs ++ " more=" ++ showBool more))
+      else none
+    | _, _ => none
+  | ["itpairs", j] =>
+    (pos? j).map fun j =>
+      (r.itPairs j).map fun (xs, cs) => (st, "outer=" ++ showNats xs ++ " inner=" ++ showCounts cs)
+  | _ =>
+    -- the existing operations; a mutating line invalidates the held iterators
+    let mutating : Bool := match t with
+      | op :: _ => op == "add" || op == "rm" || op == "fill" || op == "drain"
+      | [] => false
+    (step r t).map fun res => res.map fun (r', out) =>
+      ({ st with r := r', its := if mutating then Array.replicate 4 none else st.its }, out)
+
+def runOps : Option St → List String → List String
   | _, [] => []
   | none, _ :: ls => "dead" :: runOps none ls
-  | some r, l :: ls =>
-    match step r (toks l) with
-    | none => "bad-op" :: runOps (some r) ls
+  | some st, l :: ls =>
+    match stepSt st (toks l) with
+    | none => "bad-op" :: runOps (some st) ls
     | some none => "panic" :: runOps none ls
-    | some (some (r', out)) => out :: runOps (some r') ls
+    | some (some (st', out)) => out :: runOps (some st') ls
 
 def runCase (hdr : List String) (ops : List String) : List String :=
   match hdr with
-  | ["rb"] => "ok" :: runOps (some RB.empty) ops
+  | ["rb"] => "ok" :: runOps (some St.init) ops
   | _ => "bad-op" :: ops.map fun _ => "bad-op"
 
 end Golib.C03
